@@ -4,6 +4,7 @@ use serde_json::Value;
 pub mod c07;
 pub mod c09;
 pub mod c11;
+pub mod c12;
 pub mod c14;
 pub mod c15;
 pub mod c16;
@@ -20,6 +21,7 @@ fn table(prop: &str) -> Option<(RunFn, ReplayFn)> {
         "C07" => (c07::run, c07::replay),
         "C09" => (c09::run, c09::replay),
         "C11" => (c11::run, c11::replay),
+        "C12" => (c12::run, c12::replay),
         "C14" => (c14::run, c14::replay),
         "C15" => (c15::run, c15::replay),
         "C16" => (c16::run, c16::replay),
@@ -93,6 +95,7 @@ pub fn child_main(args: &[String]) -> i32 {
     match args.first().map(|s| s.as_str()) {
         Some("c18") => c18::child(&args[1..]),
         Some("c09") => c09::child(&args[1..]),
+        Some("c12") => c12::child(&args[1..]),
         _ => {
             eprintln!("ENGINE-ERROR unknown child {:?}", args);
             2
